@@ -12,7 +12,7 @@ use purl::{GenericPurl, GenericPurlBuilder, ParseError, PurlField, PurlParts, Pu
 use serde::{Deserialize, Serialize};
 use serde_json::json;
 
-use crate::core::{guarded, Log, Sim, Stats, Violation};
+use crate::core::{guarded, string_shrinks, Log, Sim, Stats, Violation};
 use crate::gen;
 use crate::rng::{Fnv, Rng};
 use crate::{ev, violation};
@@ -40,6 +40,57 @@ pub enum HookAction {
     InsertChecksumWellFormed(String),
     InsertChecksumMalformed(String),
     RetypeSelf(String),
+    /// `qualifier[target] := value` through one particular write path of `Qualifiers`.
+    Write { path: WritePath, target: Target, value: String },
+}
+
+/// The ways a hook can write a qualifier value.
+#[derive(Clone, Copy, Debug, PartialEq, Eq, Serialize, Deserialize)]
+pub enum WritePath {
+    IndexMut,
+    GetMut,
+    EntryOrInsert,
+    EntryAndModify,
+    EntryInsert,
+    IterMut,
+    RetainMut,
+    TryFromIter,
+}
+
+pub const WRITE_PATHS: &[WritePath] = &[
+    WritePath::IndexMut,
+    WritePath::GetMut,
+    WritePath::EntryOrInsert,
+    WritePath::EntryAndModify,
+    WritePath::EntryInsert,
+    WritePath::IterMut,
+    WritePath::RetainMut,
+    WritePath::TryFromIter,
+];
+
+impl WritePath {
+    fn kind(self) -> &'static str {
+        match self {
+            WritePath::IndexMut => "hook.write_via.index_mut",
+            WritePath::GetMut => "hook.write_via.get_mut",
+            WritePath::EntryOrInsert => "hook.write_via.entry_or_insert",
+            WritePath::EntryAndModify => "hook.write_via.entry_and_modify",
+            WritePath::EntryInsert => "hook.write_via.entry_insert",
+            WritePath::IterMut => "hook.write_via.iter_mut",
+            WritePath::RetainMut => "hook.write_via.retain_mut",
+            WritePath::TryFromIter => "hook.write_via.try_from_iter",
+        }
+    }
+}
+
+#[derive(Clone, Debug, PartialEq, Eq, Serialize, Deserialize)]
+pub enum Target {
+    /// The i-th existing qualifier (modulo); nothing happens if there is none.
+    Existing(usize),
+    /// This (valid) key, whether it exists or not.
+    Key(String),
+    /// The `checksum` qualifier.
+    Checksum,
 }
 
 impl HookAction {
@@ -59,6 +110,7 @@ impl HookAction {
             HookAction::InsertChecksumWellFormed(_) => "hook.insert_checksum_well_formed",
             HookAction::InsertChecksumMalformed(_) => "hook.insert_checksum_malformed",
             HookAction::RetypeSelf(_) => "hook.retype_self",
+            HookAction::Write { path, .. } => path.kind(),
         }
     }
 }
@@ -78,6 +130,14 @@ pub const ACTION_KINDS: &[&str] = &[
     "hook.insert_checksum_well_formed",
     "hook.insert_checksum_malformed",
     "hook.retype_self",
+    "hook.write_via.index_mut",
+    "hook.write_via.get_mut",
+    "hook.write_via.entry_or_insert",
+    "hook.write_via.entry_and_modify",
+    "hook.write_via.entry_insert",
+    "hook.write_via.iter_mut",
+    "hook.write_via.retain_mut",
+    "hook.write_via.try_from_iter",
 ];
 
 #[derive(Clone, Debug, PartialEq, Eq, Serialize, Deserialize)]
@@ -315,6 +375,7 @@ impl PurlShape for SimShape {
                     let _ = parts.qualifiers.insert("checksum", t.as_str());
                 },
                 HookAction::RetypeSelf(ty) => self.ty = ty.clone(),
+                HookAction::Write { path, target, value } => write_qualifier(parts, *path, target, value),
             }
         }
         let after = snap(parts);
@@ -333,6 +394,77 @@ impl PurlShape for SimShape {
                 None => Ok(()),
             }
         })
+    }
+}
+
+/// `qualifier[target] := value`, through the given write path (falling back to `insert` where the
+/// path can only touch existing qualifiers and there is none).
+fn write_qualifier(parts: &mut PurlParts, path: WritePath, target: &Target, value: &str) {
+    use purl::qualifiers::Entry;
+    let q = &mut parts.qualifiers;
+    let key: String = match target {
+        Target::Existing(i) => {
+            let n = q.len();
+            if n == 0 {
+                return;
+            }
+            q.iter().nth(i % n).map(|(k, _)| k.as_str().to_owned()).unwrap_or_default()
+        },
+        Target::Key(k) => k.clone(),
+        Target::Checksum => "checksum".to_owned(),
+    };
+    let exists = q.contains_key(key.as_str());
+    match path {
+        WritePath::IndexMut if exists => q[key.as_str()] = value.into(),
+        WritePath::GetMut if exists => {
+            if let Some(v) = q.get_mut(key.as_str()) {
+                *v = value.into();
+            }
+        },
+        WritePath::EntryOrInsert => {
+            if let Ok(e) = q.entry(key.as_str()) {
+                *e.or_insert("") = value.into();
+            }
+        },
+        WritePath::EntryAndModify => {
+            if let Ok(e) = q.entry(key.as_str()) {
+                e.and_modify(|v| *v = value.into()).or_insert_with(|| value);
+            }
+        },
+        WritePath::EntryInsert => match q.entry(key.as_str()) {
+            Ok(Entry::Occupied(mut o)) => {
+                o.insert(value);
+            },
+            Ok(Entry::Vacant(v)) => {
+                v.insert(value);
+            },
+            Err(_) => {},
+        },
+        WritePath::IterMut if exists => {
+            for (k, v) in q.iter_mut() {
+                if *k == key {
+                    *v = value.into();
+                }
+            }
+        },
+        WritePath::RetainMut if exists => q.retain_mut(|k, v| {
+            if *k == key {
+                *v = value.into();
+            }
+            true
+        }),
+        WritePath::TryFromIter => {
+            // Rebuild the whole collection from pairs, with the one value replaced or added.
+            let mut pairs: Vec<(String, String)> =
+                q.iter().filter(|(k, _)| **k != key).map(|(k, v)| (k.as_str().to_owned(), v.to_owned())).collect();
+            pairs.push((key.clone(), value.to_owned()));
+            if let Ok(rebuilt) = purl::Qualifiers::try_from_iter(pairs) {
+                *q = rebuilt;
+            }
+        },
+        _ => {
+            let _ = q.insert(key.as_str(), value);
+        },
     }
 }
 
@@ -773,7 +905,27 @@ fn action_menu(rng: &mut Rng) -> Vec<HookAction> {
         HookAction::InsertChecksumWellFormed(gen::checksum_text(rng, true)),
         HookAction::InsertChecksumMalformed(gen::checksum_text(rng, false)),
         HookAction::RetypeSelf((*rng.pick(&["other", "npm", "x-y", "a.b", "c++"])).to_owned()),
+        write_action(rng),
+        write_action(rng),
+        write_action(rng),
+        write_action(rng),
     ]
+}
+
+fn write_action(rng: &mut Rng) -> HookAction {
+    let path = *rng.pick(WRITE_PATHS);
+    let target = match rng.below(5) {
+        0 | 1 => Target::Existing(rng.below(4)),
+        2 => Target::Key(gen::qualifier_key(rng)),
+        _ => Target::Checksum,
+    };
+    let value = match (&target, rng.below(6)) {
+        (_, 0) => String::new(),
+        (Target::Checksum, 1..=3) => gen::checksum_text(rng, true),
+        (Target::Checksum, _) => gen::checksum_text(rng, false),
+        _ => gen::component(rng, true),
+    };
+    HookAction::Write { path, target, value }
 }
 
 fn builder_calls(rng: &mut Rng) -> Vec<BuilderCall> {
@@ -903,19 +1055,14 @@ impl Sim for C14 {
                 if matches!(sc.workload, Workload::Deserialize { .. }) {
                     out.push(Scenario { workload: Workload::Parse { input: input.clone() }, scripts: sc.scripts.clone() });
                 }
-                let chars: Vec<char> = input.chars().collect();
-                // Cut the tail at separators, then drop single characters.
+                // Cut the tail at separators, then remove chunks of characters.
                 for sep in ['#', '?', '@'] {
                     if let Some(at) = input.rfind(sep) {
                         out.push(Scenario { workload: mk(input[..at].to_owned()), scripts: sc.scripts.clone() });
                     }
                 }
-                if chars.len() <= 60 {
-                    for i in 0..chars.len() {
-                        let mut c = chars.clone();
-                        c.remove(i);
-                        out.push(Scenario { workload: mk(c.into_iter().collect()), scripts: sc.scripts.clone() });
-                    }
+                for shorter in string_shrinks(input) {
+                    out.push(Scenario { workload: mk(shorter), scripts: sc.scripts.clone() });
                 }
             },
             Workload::Build { ty, name, calls } => {
